@@ -41,7 +41,31 @@ def _rename_chain(b, n=3):
     return sum(1 for i in range(1, len(b)) if b[i]["op"] == "create" and b[i - 1]["op"] == "rename") >= n
 
 
-SELECT = {"rename_chain3": _rename_chain}
+def _flatten_two_gens(b):
+    """a flatten (or verify -pl) after at least two generations"""
+    n = 0
+    for o in b:
+        if o["op"] in ("create", "createsf"):
+            n += 1
+        elif o["op"] in ("flatten", "verifypl") and n >= 2:
+            return True
+    return False
+
+
+def _two_renames(b):
+    """two or more renames between two creates (several files moved in one generation gap)"""
+    seen, n = False, 0
+    for o in b:
+        if o["op"] == "create":
+            if seen and n >= 2:
+                return True
+            seen, n = True, 0
+        elif o["op"] == "rename" and seen:
+            n += 1
+    return False
+
+
+SELECT = {"rename_chain3": _rename_chain, "flatten_two_gens": _flatten_two_gens, "two_renames": _two_renames}
 
 
 def history_campaign(out, pid, plans, pclauses, antecedent, seed, mclauses=None, line_filter=None):
@@ -391,7 +415,7 @@ INV_C12 = ["Inv_C12_Excluded", "Inv_C12_Accumulate", "Inv_C03_Quiet", "Inv_C02_R
 generic(
     "C12", "model_checking",
     quick=[
-        dict(scope="ign", mode="simulate", num=120, depth=8, limit=800, mc_maxgens=1, invariants=INV_C12, variants=[{"names": "plain"}, {"names": "mixed", "augment": True}]),
+        dict(scope="ign", mode="simulate", num=120, depth=8, limit=800, mc_maxgens=1, invariants=INV_C12, variants=[{"names": "plain"}, {"names": "mixed", "augment": True}, {"names": "space", "augment": True}]),
         dict(scope="igndh", mode="simulate", num=80, depth=8, limit=900, mc_maxgens=1, invariants=INV_C12 + ["Inv_C09_Identical"], variants=[{"names": "plain", "augment": True}, {"names": "space"}]),
         dict(scope="ignsf", mode="simulate", num=60, depth=8, limit=600, mc_maxgens=2, invariants=INV_C12),
     ],
@@ -432,7 +456,9 @@ generic(
 INV_C18 = ["Inv_C18_Summary", "Inv_C18_VerifyPL", "Inv_C14_Frame"]
 generic(
     "C18", "model_checking",
-    quick=[dict(scope="flat", mode="simulate", num=120, depth=11, limit=900, mc_maxgens=1, invariants=INV_C18, variants=[{"names": "plain"}, {"names": "mixed", "flatrel": True}, {"names": "unicode"}])],
+    quick=[dict(scope="flat", mode="simulate", num=120, depth=11, limit=900, mc_maxgens=1, invariants=INV_C18, variants=[{"names": "plain"}, {"names": "mixed", "flatrel": True}, {"names": "unicode"}]),
+           dict(scope="flatx", mode="exhaustive", maxops=5, maxgens=3, select="flatten_two_gens", mc_maxgens=3, invariants=INV_C18),
+           dict(scope="flatign", mode="simulate", num=60, depth=6, limit=400, mc_maxgens=2, invariants=INV_C18)],
     thorough=[dict(scope="flat", mode="simulate", num=1500, depth=13, mc_maxgens=3, invariants=INV_C18)],
     pclauses=["P_C18_Summary", "P_C18_VerifyPL", "P_C18_Valid", "P_C14_Frame"],
     antecedent=lambda ln, v: ln["op"]["op"] in ("flatten", "verifypl") and ln["exit"] != 30 and has_history(ln),
@@ -489,6 +515,7 @@ generic(
     "C17", "model_checking",
     quick=[dict(scope="chain2", mode="exhaustive", maxops=6, limit=1200, mc_maxgens=3, invariants=INV_C17),
            dict(scope="chain3", mode="exhaustive", maxops=8, maxgens=5, select="rename_chain3", mc=False),
+           dict(scope="ren", mode="exhaustive", maxops=4, maxgens=2, select="two_renames", mc=False, tag="r"),
            dict(scope="chain", mode="simulate", num=60, depth=11, limit=500, mc_maxgens=2, invariants=INV_C17),
            dict(scope="ren", mode="simulate", num=60, depth=10, limit=500, mc_maxgens=1, invariants=INV_C17)],
     thorough=[dict(scope="chain2", mode="exhaustive", maxops=7, mc_maxgens=3, invariants=INV_C17),
@@ -511,7 +538,7 @@ def c13(tier, seed):
     from . import validate
 
     out = Outcome("C13", tier, seed, "model_checking")
-    plans = [("nest", 7, 120), ("ign", 6, 100), ("tree", 6, 80)] if tier == "quick" else [("nest", 9, 900), ("ign", 8, 700), ("tree", 8, 500), ("ren", 8, 200)]
+    plans = [("nest", 7, 120), ("ign", 6, 100), ("tree", 6, 80), ("sib2", 5, 40)] if tier == "quick" else [("nest", 9, 900), ("ign", 8, 700), ("tree", 8, 500), ("ren", 8, 200), ("sib2", 6, 200)]
     known = [k for k in load_known() if k["property"] == "C13" and k.get("status") == "open"]
     nontrivial = set()
     total = 0
